@@ -144,7 +144,6 @@ type (
 		txIDNode                *snowflake.Node // generates the transaction ids of this DB
 		KeyCount                int             // total key number ,include expired, deleted, repeated.
 		closed                  bool
-		isMerging               bool
 	}
 
 	// BPTreeIdx represents the B+ tree index
@@ -301,24 +300,29 @@ func (db *DB) Merge() error {
 		return errors.New("not support mode `HintBPTSparseIdxMode`")
 	}
 
-	if db.closed {
-		return ErrDBClosed
-	}
-
-	db.isMerging = true
-
 	_, pendingMergeFIds = db.getMaxFileIDAndFileIDs()
 
 	if len(pendingMergeFIds) < 2 {
-		db.isMerging = false
 		return errors.New("the number of files waiting to be merged is at least 2")
 	}
 
 	for _, pendingMergeFId := range pendingMergeFIds {
+		// One write transaction per file. The file is scanned against the
+		// indexes, its live records are rewritten and the indexes are updated
+		// while the write lock is held, so that no other transaction can
+		// commit between the decision what is live and the rewrite (its
+		// update would be overwritten by the stale record), and Merge never
+		// reads the indexes while a commit is changing them.
+		tx, err := db.Begin(true)
+		if err != nil {
+			return err
+		}
+		tx.merging = true
+
 		off = 0
 		f, err := NewDataFile(db.getDataPath(int64(pendingMergeFId)), db.opt.SegmentSize, db.opt.RWMode)
 		if err != nil {
-			db.isMerging = false
+			tx.Rollback()
 			return err
 		}
 
@@ -373,17 +377,20 @@ func (db *DB) Merge() error {
 					break
 				}
 				f.rwManager.Close()
+				tx.Rollback()
 				return fmt.Errorf("when merge operation build hintIndex readAt err: %s", err)
 			}
 		}
 
-		if err := db.reWriteData(pendingMergeEntries); err != nil {
+		// reWriteData ends the transaction (and with it releases the lock)
+		if err := db.reWriteData(tx, int64(pendingMergeFId), pendingMergeEntries); err != nil {
 			f.rwManager.Close()
 			return err
 		}
 
+		// From here on neither the indexes nor db.ActiveFile refer to the
+		// merged file any more.
 		if err := os.Remove(db.getDataPath(int64(pendingMergeFId))); err != nil {
-			db.isMerging = false
 			f.rwManager.Close()
 			return fmt.Errorf("when merge err: %s", err)
 		}
@@ -397,19 +404,6 @@ func (db *DB) Merge() error {
 		}
 
 		f.rwManager.Close()
-
-		if db.ActiveFile.fileID == int64(pendingMergeFId) {
-			// The file just removed was the active one and none of its
-			// records had to be rewritten, so no new active file took its
-			// place: start a fresh one, or the following commits would go
-			// to the removed file and be lost at the next Open.
-			db.ActiveFile.rwManager.Close()
-			db.MaxFileID++
-			if err := db.setActiveFile(); err != nil {
-				db.isMerging = false
-				return err
-			}
-		}
 	}
 
 	return nil
@@ -1028,22 +1022,30 @@ func (db *DB) getPendingMergeEntries(entry *Entry, pendingMergeEntries []*Entry)
 	return pendingMergeEntries
 }
 
-func (db *DB) reWriteData(pendingMergeEntries []*Entry) error {
+// reWriteData writes the live records of the file mergedFID into a new active
+// file through tx, the write transaction under which Merge scanned that file,
+// and ends tx in every case.
+func (db *DB) reWriteData(tx *Tx, mergedFID int64, pendingMergeEntries []*Entry) error {
 	if len(pendingMergeEntries) == 0 {
-		return nil
-	}
-	tx, err := db.Begin(true)
-	if err != nil {
-		db.isMerging = false
-		return err
+		if db.ActiveFile.fileID == mergedFID {
+			// The file about to be removed is the active one and none of
+			// its records has to be rewritten, so no new active file takes
+			// its place below: start a fresh one, or the following commits
+			// would go to the removed file and be lost at the next Open.
+			db.ActiveFile.rwManager.Close()
+			db.MaxFileID++
+			if err := db.setActiveFile(); err != nil {
+				tx.Rollback()
+				return err
+			}
+		}
+		return tx.Rollback()
 	}
 
 	dataFile, err := NewDataFile(db.getDataPath(db.MaxFileID+1), db.opt.SegmentSize, db.opt.RWMode)
 	if err != nil {
-		// release the write lock taken by Begin, or every later
-		// transaction blocks forever
+		// release the write lock, or every later transaction blocks forever
 		tx.Rollback()
-		db.isMerging = false
 		return err
 	}
 	db.ActiveFile = dataFile
@@ -1054,7 +1056,6 @@ func (db *DB) reWriteData(pendingMergeEntries []*Entry) error {
 		err := tx.put(string(e.Meta.bucket), e.Key, e.Value, e.Meta.TTL, e.Meta.Flag, e.Meta.timestamp, e.Meta.ds)
 		if err != nil {
 			tx.Rollback()
-			db.isMerging = false
 			return err
 		}
 	}
@@ -1063,7 +1064,6 @@ func (db *DB) reWriteData(pendingMergeEntries []*Entry) error {
 		// on to remove the file whose records were to be rewritten, and
 		// release the write lock that a failed Commit leaves held.
 		tx.Rollback()
-		db.isMerging = false
 		return err
 	}
 	return nil
